@@ -12,7 +12,9 @@ Levels (when does the code of a scope run):
 
 Mutable objects:
   oneshot     built by iter/map/filter/zip/enumerate/reversed, a generator expression, a generator function (`infinite()`),
-              itertools.*           -- "used" by ANY reference from a deeper scope
+              itertools.* (also names imported `from itertools import ...`)  -- "used" by ANY reference from a deeper scope
+  object      instance of a class defined in the same file whose methods write `self` state (e.g. `HashSet`)
+              -- used by any reference from a deeper scope
   subject     Subject/ReplaySubject/BehaviorSubject/AsyncSubject(...)          -- used by any reference from a deeper scope
   container   list/dict/set display or comprehension, list()/dict()/set()/deque()/OrderedDict()/defaultdict()
               -- used when a deeper scope calls a mutating method on it or stores/deletes a subscript
@@ -36,6 +38,8 @@ ONESHOT_BUILTINS = {"iter", "map", "filter", "zip", "enumerate", "reversed"}
 GENERATOR_FUNCS = {"infinite"}  # extended at run time with every module-level generator function of reactivex/internal/*.py
 ONESHOT_CALLS = set(ONESHOT_BUILTINS) | GENERATOR_FUNCS
 MODULE_BOUND = set()  # names bound at module level of the file being analysed (they shadow the builtins)
+ITERTOOLS_NAMES = set()  # names imported `from itertools import ...` in the file being analysed (count, cycle, chain, ...)
+STATEFUL_CLASSES = set()  # classes defined in the file being analysed whose methods write `self` state (HashSet, ...)
 SUBJECT_CALLS = {"Subject", "ReplaySubject", "BehaviorSubject", "AsyncSubject"}
 CONTAINER_CALLS = {"list", "dict", "set", "deque", "OrderedDict", "defaultdict", "bytearray"}
 DISPOSABLE_CALLS = {"CompositeDisposable", "SerialDisposable", "SingleAssignmentDisposable", "MultipleAssignmentDisposable",
@@ -69,6 +73,10 @@ def kind_of_expr(e):
             n = callee_name(e.func.value)
         if n in GENERATOR_FUNCS:
             return "oneshot"
+        if isinstance(e.func, ast.Name) and n in ITERTOOLS_NAMES:
+            return "oneshot"
+        if isinstance(e.func, ast.Name) and n in STATEFUL_CLASSES:
+            return "object"
         if n in ONESHOT_BUILTINS and isinstance(e.func, ast.Name) and n not in MODULE_BOUND:
             return "oneshot"
         if n in SUBJECT_CALLS:
@@ -228,7 +236,7 @@ def refers_to(sc: Scope, owner: Scope, x: str) -> bool:
 def uses_in(sc: Scope, x: str, kind: str):
     """is object x (of the given kind) used/mutated in the own body of scope sc?"""
     for n in own_nodes(sc.node):
-        if kind in ("oneshot", "subject", "unknown"):
+        if kind in ("oneshot", "subject", "unknown", "object"):
             if isinstance(n, ast.Name) and n.id == x and isinstance(n.ctx, ast.Load):
                 return True
         elif kind == "container":
@@ -328,7 +336,7 @@ def analyze_root(fn, file, root_name, is_operator):
                 if refers_to(d, sc, x) and uses_in(d, x, k):
                     used = d.level if used is None else max(used, d.level)
             esc = None
-            if k in ("oneshot", "subject") and sc.level < 2:
+            if k in ("oneshot", "subject", "object") and sc.level < 2:
                 esc = escapes_in(sc, x)
             entries.append(dict(file=file, func=root_name, path=sc.path(), name=x, kind=k, created=sc.level, used=used,
                                 escapes=esc is not None, line=line, via=esc or ""))
@@ -366,6 +374,25 @@ def module_level_entries(tree, file):
     return out
 
 
+def _writes_self_state(cls: ast.ClassDef) -> bool:
+    """does a method other than __init__ mutate the instance (assign / augment `self.x`, or call a mutator on `self.x`)?"""
+    for m in cls.body:
+        if not isinstance(m, (ast.FunctionDef, ast.AsyncFunctionDef)) or m.name == "__init__":
+            continue
+        for n in ast.walk(m):
+            if isinstance(n, ast.Attribute) and isinstance(n.ctx, (ast.Store, ast.Del)) and isinstance(n.value, ast.Name) and n.value.id == "self":
+                return True
+            if isinstance(n, ast.Call) and isinstance(n.func, ast.Attribute) and n.func.attr in MUTATORS:
+                v = n.func.value
+                if isinstance(v, ast.Attribute) and isinstance(v.value, ast.Name) and v.value.id == "self":
+                    return True
+            if isinstance(n, ast.Subscript) and isinstance(n.ctx, (ast.Store, ast.Del)):
+                v = n.value
+                if isinstance(v, ast.Attribute) and isinstance(v.value, ast.Name) and v.value.id == "self":
+                    return True
+    return False
+
+
 def files_of(repo: Path):
     r = repo / "reactivex"
     fs = sorted((r / "operators").glob("*.py")) + sorted((r / "operators" / "connectable").glob("*.py")) \
@@ -387,6 +414,13 @@ def extract(repo: Path):
         tree = ast.parse(f.read_text())
         is_op = rel.startswith("operators/")
         MODULE_BOUND.clear()
+        ITERTOOLS_NAMES.clear()
+        STATEFUL_CLASSES.clear()
+        for st in tree.body:
+            if isinstance(st, ast.ImportFrom) and st.module == "itertools":
+                ITERTOOLS_NAMES.update(al.asname or al.name for al in st.names)
+            if isinstance(st, ast.ClassDef) and _writes_self_state(st):
+                STATEFUL_CLASSES.add(st.name)
         for st in tree.body:
             if isinstance(st, (ast.FunctionDef, ast.AsyncFunctionDef, ast.ClassDef)):
                 MODULE_BOUND.add(st.name)
